@@ -37,6 +37,7 @@ func main() {
 		fs.StringVar(&o.Cursor, "cursor", "", "")
 		fs.StringVar(&o.Out, "out", "/dev/stderr", "")
 		fs.Int64Var(&o.OnlyIndex, "index", -1, "")
+		fs.Int64Var(&o.StopAfter, "stopafter", 0, "")
 		_ = fs.Parse(os.Args[2:])
 		os.Exit(engine.RunWorker(o))
 	case "replay":
